@@ -117,7 +117,11 @@ def apply(d, mon, ev):
         sim.reactor.settle(fire_due=True)
         d.history.append(ev)
     elif k == 'rest-rr-malformed':
-        sim.rest('POST', '/v1/peer/10.0.0.2/send/route-refresh', {'afi': 'x', 'safi': 70000})
+        # requests the agent cannot encode (fields outside their octets, wrong JSON types): counted only if something was written
+        bodies = [{'afi': 'x', 'safi': 70000}, {'afi': 1, 'safi': 1, 'res': 300}, {'afi': 1, 'safi': 1, 'res': -1}, {'afi': 1, 'safi': 1, 'res': 'x'},
+                  {'afi': 1, 'safi': 1, 'res': None}, {'afi': 1.5, 'safi': 1}, {'afi': 1, 'safi': 1.0}, {'afi': 70000, 'safi': 1}, {'afi': 1, 'safi': 256},
+                  {'afi': 1}, {'safi': 1}, {'afi': [1], 'safi': {'x': 1}}]
+        sim.rest('POST', '/v1/peer/10.0.0.2/send/route-refresh', bodies[len(d.history) % len(bodies)])
         sim.reactor.settle(fire_due=True)
         d.history.append(ev)
     elif k == 'rest-update-bad':
